@@ -147,8 +147,38 @@ fn breadth_opts(ch: &mut Chooser) -> GenOpts {
 }
 
 fn make_doc(ch: &mut Chooser, name: &str) -> Made {
-    let family = ch.weighted(&[45, 20, 35]);
+    let family = ch.weighted(&[40, 18, 32, 10]);
     let qml = match family {
+        3 => {
+            // object ids and member names whose capitalised concatenations are the same word:
+            // d.xTi / dX.ti -> DXTi, s.onXFired / sX.onFired -> SXFired (function names must still differ)
+            ch.label("family-colliding-names");
+            let mut root = Obj::new("QWidget");
+            root.children.push(Obj::new("VSrc").with_id("a0"));
+            let mut objs: Vec<Obj> = vec![];
+            let e = |ch: &mut Chooser| format!("a0.i0 + {}", ch.below(9));
+            let mut d = Obj::new("VDst").with_id("d");
+            let mut dx = Obj::new("VDst").with_id("dX");
+            if ch.chance(5, 6) { d.binds.push(Bind::new("xTi", e(ch))); }
+            if ch.chance(5, 6) { dx.binds.push(Bind::new("ti", e(ch))); }
+            if ch.chance(1, 2) { d.binds.push(Bind::new("ti", e(ch))); }
+            if ch.chance(1, 2) { dx.binds.push(Bind::new("xTi", e(ch))); }
+            let mut s = Obj::new("VSig").with_id("s");
+            let mut sx = Obj::new("VSig").with_id("sX");
+            let h = |ch: &mut Chooser| match ch.below(3) { 0 => "d.ti2 = 1".to_owned(), 1 => "{ dX.ti2 = 2 }".to_owned(), _ => "function() { console.log(\"h\") }".to_owned() };
+            if ch.chance(5, 6) { s.binds.push(Bind::new("onXFired", h(ch))); }
+            if ch.chance(5, 6) { sx.binds.push(Bind::new("onFired", h(ch))); }
+            if ch.chance(1, 2) { s.binds.push(Bind::new("onFired", h(ch))); }
+            if ch.chance(1, 2) { sx.binds.push(Bind::new("onXFired", h(ch))); }
+            objs.extend([d, dx, s, sx]);
+            // any order of the four objects
+            for i in (1..objs.len()).rev() {
+                let j = ch.below(i + 1);
+                objs.swap(i, j);
+            }
+            root.children.extend(objs);
+            print_doc(DEFAULT_IMPORTS, &root, Style::default()).text
+        }
         0 => {
             ch.label("family-language-mixed");
             let nb = ch.below(14);
@@ -509,7 +539,7 @@ pub fn run(env: &Env, known: &Known, started: Instant, replayed: u64, replay_vio
     probe_plain_enum_bitwise(known, &mut rr);
     let ev = Evidence {
         env, pid: PID, level: "exploration",
-        rule: "three document families are translated and every emitted support header is checked: (1) language documents mixing 0-13 generated bindings and 0-3 handlers (every operator x operand type the typing rules admit, builtins, casts, every literal kind, statement bodies), (2) documents with 33-72 bindings (guard array of more than one word, bindings with several observers), (3) widget-catalogue documents over the real Qt classes of the metatypes (dynamic bindings and handlers on real properties and signals, gadget sub-bindings font.* / sizePolicy.*, objects and properties whose capitalised names concatenate to the same word). Oracle A: the header is a complete translation unit - `g++ -std=c++17 -fsyntax-only` (thorough: also clang++) accepts it together with a ui_*.h derived from the emitted .ui and an API model emitted from the same type information (classes, enums, flags, properties with their accessors, signals, slots, invokables; Qt 6.2 operator set for QFlags; <algorithm>, <cmath> and <QtDebug> facilities are only available through the includes the header itself names); the class is instantiated and setup() called so that every member function is compiled. Oracle B, token level: member function names pairwise distinct, every this->f() defined, BindingIndex enumerators distinct and one per update function, each update function uses its own index, bindingGuard_ has >= ceil(n/32) words, every observedX_[m] has m > largest observed[i] used in evalX, <algorithm>/<QtDebug>/<cmath> included iff used. Oracle C (string literals denote the source strings): bindings built from generated strings over the whole code-point range (NUL, controls, quotes, backslashes, `?`, BMP, astral) spelled with every ECMAScript escape form, as ternary arms, concatenations, qsTr arguments, list elements and Math.max operands, are compiled, executed and compared by UTF-16 unit with the reference interpreter. Non-trivial = header with >= 8 member functions using >= 4 operator/builtin kinds, or literal document with a non-ASCII / control / quote character; distinct by document text.",
+        rule: "four document families are translated and every emitted support header is checked: (1) language documents mixing 0-13 generated bindings and 0-3 handlers (every operator x operand type the typing rules admit, builtins, casts, every literal kind, statement bodies), (2) documents with 33-72 bindings (guard array of more than one word, bindings with several observers), (3) widget-catalogue documents over the real Qt classes of the metatypes (dynamic bindings and handlers on real properties and signals, gadget sub-bindings font.* / sizePolicy.*, objects and properties whose capitalised names concatenate to the same word), (4) documents in which object ids and property / signal names collide by concatenation (d.xTi and dX.ti, s.onXFired and sX.onFired). Oracle A: the header is a complete translation unit - `g++ -std=c++17 -fsyntax-only` (thorough: also clang++) accepts it together with a ui_*.h derived from the emitted .ui and an API model emitted from the same type information (classes, enums, flags, properties with their accessors, signals, slots, invokables; Qt 6.2 operator set for QFlags; <algorithm>, <cmath> and <QtDebug> facilities are only available through the includes the header itself names); the class is instantiated and setup() called so that every member function is compiled. Oracle B, token level: member function names pairwise distinct, every this->f() defined, BindingIndex enumerators distinct and one per update function, each update function uses its own index, bindingGuard_ has >= ceil(n/32) words, every observedX_[m] has m > largest observed[i] used in evalX, <algorithm>/<QtDebug>/<cmath> included iff used. Oracle C (string literals denote the source strings): bindings built from generated strings over the whole code-point range (NUL, controls, quotes, backslashes, `?`, BMP, astral) spelled with every ECMAScript escape form, as ternary arms, concatenations, qsTr arguments, list elements and Math.max operands, are compiled, executed and compared by UTF-16 unit with the reference interpreter. Non-trivial = header with >= 8 member functions using >= 4 operator/builtin kinds, or literal document with a non-ASCII / control / quote character; distinct by document text.",
         assumptions: vec![
             "the API model declares exactly the members the type information (metatypes + qmluic's own tweaks) lists; free functions and operators follow Qt 6.2 (a superset of 5.15 for the constructs used)".into(),
         ],
